@@ -9,9 +9,10 @@ every exception is a ValueError), `from_ast(ast)`. -/
 namespace AlgoRun
 open Gen.Algo
 
-/-- fuel that always suffices: the parser's loops and recursion consume a token per step / level, the walk pops one stack entry per
+/-- fuel that always suffices (PROVED: `C15.generated_convert_eq_model`): the translated parser needs at most twice the fuel of the model
+`Asc.convertWith`, which never runs out of fuel with `2·#tokens + 4` (`C15.model_fuel_suffices`); the walk pops one stack entry per
 iteration (one per AST node plus one per TREE) -/
-def ascParseFuel (toks : List Token) : Nat := toks.length + 3
+def ascParseFuel (toks : List Token) : Nat := 4 * toks.length + 8
 def ascWalkFuel (nodes : List ASTNode) : Nat := 2 * nodes.length + 2
 
 /-- `NeurolucidaAscToSwc.from_stream` on the lexer's token stream: (number of nodes, the seven columns) or `none` = ValueError -/
